@@ -499,6 +499,8 @@ Section Handlers.
     life <- (if Z.eqb (c_life ch) (-1) then ret (-1) else (j <- draw_num ;; ret (c_life ch + j))) ;;
     let '(kei, ker, kai, kar) :=
       if is_init then (ck_ei k, ck_er k, ck_ai k, ck_ar k) else (ck_er k, ck_ei k, ck_ar k, ck_ai k) in
+    (* the peer's SPI goes into a 4-byte ctypes field: any other length raises TypeError before a request is built *)
+    (if Nat.eqb (length (c_out ch)) 4 then ret tt else raise X_Other) ;;;
     v1 <- draw_verdict ;;
     emit (K_add (mk_ksa (c_out ch) (my_addr c) (peer_addr c) proto (c_mode ch) tsi tsr (c_prop ch) kei kai life) v1) ;;;
     (if v1 then ret tt else raise X_Netlink) ;;;
@@ -509,6 +511,7 @@ Section Handlers.
   Definition delete_child_sa (ch : child) : H unit :=
     c <- getc ;;
     let proto := ipsec_proto (c_prop ch) in
+    (if Nat.eqb (length (c_out ch)) 4 then ret tt else raise X_Other) ;;;
     v1 <- draw_verdict ;; emit (K_del (peer_addr c) proto (c_out ch) v1) ;;;
     v2 <- draw_verdict ;; emit (K_del (my_addr c) proto (c_in ch) v2).
 
@@ -1049,13 +1052,13 @@ Section Handlers.
     end.
   Definition h_response (s : isa) (m : pmsg body) : isa * rout body :=
     match response_handler (h_exch (p_hdr m)) with
-    | None => (s, RErr)
+    | None => (s, RErr false)
     | Some f =>
         match f m (clear_flags s) with
         | (Ok None, s') => (s', ROk None (my_msg_id_reset (co s')))
         | (Ok (Some (e, ps)), s') => (s', ROk (Some (e, body_of e ps)) (my_msg_id_reset (co s')))
-        | (Raise _, s') => (s', RErr)
-        | (Stuck, s') => (stuck_state s', RErr)
+        | (Raise _, s') => (s', RErr (my_msg_id_reset (co s')))
+        | (Stuck, s') => (stuck_state s', RErr false)
         end
     end.
   Definition lift_gen (f : H (Z * list payload)) (s : isa) : isa * (Z * body) :=
